@@ -52,7 +52,7 @@ def _oracle(A64, root, eps):
     return Q @ torch.diag(lam ** (-1.0 / float(root))) @ Q.T, float(lam.max() / lam.min())
 
 
-def native_accuracy(n, kind, scale, root, dtname, cfgname, seed):
+def native_accuracy(n, kind, scale, root, dtname, cfgname, seed, eps_ratio=None):
     import torch
     from fractions import Fraction
     import matrix_functions as M
@@ -72,6 +72,8 @@ def native_accuracy(n, kind, scale, root, dtname, cfgname, seed):
     A64 = (Q * (lam * scale).unsqueeze(0)) @ Q.T
     A64 = (A64 + A64.T) / 2
     eps = 1e-3 * scale if dtname == "f32" else 1e-6 * scale
+    if eps_ratio is not None:  # epsilon comparable to / larger than ||A||_F (small-scale or low-rank factors)
+        eps = eps_ratio * float(A64.norm())
     cfg = dict(eigen=EigenConfig(), stab=EigenConfig(enhance_stability=True), newton=CoupledNewtonConfig(max_iterations=200, tolerance=1e-6 if dtname == "f32" else 1e-10),
                higher=CoupledHigherOrderConfig(max_iterations=100, tolerance=1e-7 if dtname == "f32" else 1e-12))[cfgname]
     if cfgname == "newton" and Fraction(root).denominator != 1:
@@ -109,6 +111,14 @@ def bounded(tier, seed):
         if bad and len(viol) < 5:
             viol.append(dict(ob=f"bounded/accuracy[{n},{kind},{scale},{root},{dtn},{cfgn}]", func="matrix_inverse_root", input=dict(n=n, spectrum=kind, scale=scale, root=str(root), dtype=dtn, config=cfgn),
                              text=bad, detail=bad, replay=dict(kind="accuracy", n=n, spectrum=kind, scale=scale, root=[root.numerator, root.denominator], dt=dtn, cfg=cfgn, seed=seed)))
+    # epsilon of the order of ||A||_F and beyond
+    for n, kind, ratio, root, dtn, cfgn in itertools.product((2, 5, 8), ("random", "rankdef"), (0.1, 1.0, 10.0, 100.0), (Fraction(2), Fraction(4)), ("f32", "f64"), ("eigen", "newton", "higher")):
+        bad = native_accuracy(n, kind, 1.0, root, dtn, cfgn, seed, eps_ratio=ratio)
+        evals += 1
+        distinct.add((n, kind, "ratio", ratio, str(root), dtn, cfgn))
+        if bad and len(viol) < 5:
+            viol.append(dict(ob=f"bounded/accuracy-large-epsilon[{n},{kind},eps/|A|={ratio},{root},{dtn},{cfgn}]", func="matrix_inverse_root", input=dict(n=n, spectrum=kind, eps_over_normA=ratio, root=str(root), dtype=dtn, config=cfgn),
+                             text=bad, detail=bad, replay=dict(kind="accuracy", n=n, spectrum=kind, scale=1.0, root=[root.numerator, root.denominator], dt=dtn, cfg=cfgn, seed=seed, ratio=ratio)))
     # fast paths equal the general path
     import torch
     import matrix_functions as M
@@ -133,7 +143,7 @@ def replay_file(doc):
     from fractions import Fraction
     rp = doc.get("replay_input") or {}
     if rp.get("kind") == "accuracy":
-        bad = native_accuracy(rp["n"], rp["spectrum"], rp["scale"], Fraction(*rp["root"]), rp["dt"], rp["cfg"], rp["seed"])
+        bad = native_accuracy(rp["n"], rp["spectrum"], rp["scale"], Fraction(*rp["root"]), rp["dt"], rp["cfg"], rp["seed"], eps_ratio=rp.get("ratio"))
         return bool(bad), f"{rp}: {bad}"
     if rp.get("kind") in ("dispatch", "newton", "higher", "eigen"):
         import itertools
@@ -142,5 +152,9 @@ def replay_file(doc):
                 bad = native_accuracy(n, kind, scale, root, dtn, cfgn, 0)
                 if bad:
                     return True, f"n={n} {kind} scale={scale} root={root} {dtn} {cfgn}: {bad}"
+            for ratio in (1.0, 10.0, 100.0):
+                bad = native_accuracy(n, kind, 1.0, root, dtn, cfgn, 0, eps_ratio=ratio)
+                if bad:
+                    return True, f"n={n} {kind} eps/||A||={ratio} root={root} {dtn} {cfgn}: {bad}"
         return False, "native accuracy sweep passes"
     return False, "no native replayer"
